@@ -4,6 +4,7 @@ from rig.stubs import rigged
 from rig import adapter
 from harness import fsm_common as FC
 from spec import fsm_graph as G
+from symx import sand
 
 PROPERTY = 'C02'
 STEPS = ['tick', 'state_event', 'restart', 'shutdown', 'end_sync', 'process_crash']
@@ -28,6 +29,8 @@ def do_step(src, core, sit, steps=STEPS):
                    'discovery_mode': False, 'master_identifier': new_master, 'starting_jobs': False,
                    'stopping_jobs': False,
                    'instance_states': {i: v.name for i, v in view.items()}}
+        # a real publication obeys the invariant of its publisher (I3)
+        src.assume(FC.declares_running_master(new_master, view, ids))
         core.fsm.on_state_event(status, payload)
         sit['peers'][k - 1] = {'state': new_state, 'master': new_master, 'view': view}
     elif step in ('restart', 'shutdown', 'end_sync'):
@@ -83,6 +86,30 @@ def check_graph(src, core, sit):
     return trace
 
 
+def check_invariant(src, core, sit):
+    """the induction closes: the representation invariant assumed on the pre-state (fsm_common.assume_invariant) holds
+    again after the step"""
+    from supvisors.ttypes import SupvisorsInstanceStates as S, SupvisorsStates as F
+    step = sit.get('step')
+    m = src.conc(core.state_modes.master_identifier)
+    if m:
+        seen = src.conc(core.context.instances[m].state)
+        src.check('invariant-I1-local-master-is-seen-running', seen == S.RUNNING, sig=f'{step}:master-seen-{seen.name}',
+                  master=m)
+    for name, args in core.rpc_handler.out:
+        if name == 'send_state_event':
+            p = args[0]
+            pm = src.conc(p['master_identifier'])
+            src.check('invariant-I3-published-master-is-published-running',
+                      not pm or src.conc(p['instance_states'].get(pm)) == 'RUNNING', sig=f'{step}', master=pm)
+    for i in sit['ids'][1:]:
+        seen = src.conc(core.context.instances[i].state)
+        if seen == S.ISOLATED:
+            sm = core.state_modes.instance_state_modes[i]
+            src.check('invariant-I2-nothing-kept-about-a-gone-peer',
+                      sand(sm.state == F.OFF, sm.master_identifier == ''), sig=f'{step}:{seen.name}', peer=i)
+
+
 def pick_step(src, n, steps=STEPS):
     step = src.pick('step', list(steps))
     ev_from = src.pick_int('ev_from', 1, n - 1) if step == 'state_event' else None
@@ -94,12 +121,17 @@ def step(src, n=2, peer_views='abstract', steps=STEPS, fsm_states=FC.FSM, sync=F
     st, ev_from = pick_step(src, n, steps)
     core, sit = FC.build(src, n=n, peer_views=peer_views, fsm_states=fsm_states, blank_peer=ev_from, sync=sync)
     sit.update(step=st, ev_from=ev_from, peer_views=peer_views)
+    if st == 'state_event':
+        # the listener only hands over what Context.is_valid admits: nothing from an ISOLATED origin (C13)
+        from supvisors.ttypes import SupvisorsInstanceStates as S
+        src.assume(sit['ist'][ev_from] != S.ISOLATED)
     if st in ('restart', 'shutdown', 'end_sync'):
         # XML-RPCs are served by a live instance: beyond OFF the local instance sees itself RUNNING
         from supvisors.ttypes import SupvisorsInstanceStates as S
         src.assume(sit['ist'][0] == S.RUNNING)
     do_step(src, core, sit, steps)
     trace = check_graph(src, core, sit)
+    check_invariant(src, core, sit)
     src.reach('moved' if len(trace) > 1 else 'stayed')
     src.check('final-is-terminal', sit['fsm'] != 'FINAL' or trace == ['FINAL'])
     src.check('no-internal-error', not core.logger.tracebacks(), log=core.logger.tracebacks()[:1])
@@ -116,6 +148,11 @@ HARNESSES = [
             classify=_classify,
             doc='one real FSM entry point (tick, peer state event, restart, shutdown, end_sync, process crash) from '
                 'an arbitrary symbolic situation, N=2; published state sequence vs the documented graph'),
+    Harness('H02a-n3-election', step, quick={'n': 3, 'peer_views': 'abstract', 'steps': ('tick',),
+                                             'fsm_states': ('ELECTION',), 'sync': ('LIST', 'TIMEOUT')},
+            thorough=None, reach=('moved', 'stayed'), timeout=(120, 0), classify=_classify,
+            doc='N=3, one evaluation of ELECTION: a third instance may be the Master that a peer still declares while '
+                'the local instance does not see it RUNNING'),
     Harness('H02a-n3', step, quick=None, thorough={'n': 3, 'peer_views': 'abstract'}, reach=('moved', 'stayed'),
             timeout=(0, 1500), classify=_classify,
             doc='same with N=3 and the 3-valued abstraction of the peers views'),
